@@ -41,4 +41,27 @@ META = {
         assumptions=["integrations are exercised in-process (grpc metadata contexts, httptest, stub dubbo invoker)"],
         timeout=1200,
     ),
+    "C19": dict(
+        rule="random histories of open/close/release/busy/select over 1-3 addresses and the five policies (plus an unknown "
+             "spelling), xids of the form ip:port:id for present/absent/closed addresses and malformed ones; the session "
+             "returned by the real loadbalance.Select must belong to the SET the Lean `allowed` computes for that state "
+             "(random choice and map order are not functions of the state); reconnection at idle / request in flight / "
+             "between phase one and two through the real client. non-trivial = more than one session",
+        trusted=["fakecoord; FakeSession objects as sessions; rpc in-flight counters set through rpc.BeginCount"],
+        assumptions=["consistent hash: the ring position (md5) is not modelled; allowed = every open registered session"],
+        compare=lambda cid, impl, model, tags: tags.get("member") == "1" and _member(impl, model),
+    ),
 }
+
+def _member(impl, model):
+    a, b = impl.split(), model.split()
+    if len(a) != len(b):
+        return False
+    for x, s in zip(a, b):
+        if s == "nil":
+            if x != "nil":
+                return False
+        else:
+            if x not in s.strip("{}").split(","):
+                return False
+    return True
